@@ -287,7 +287,8 @@ Definition st_check (t : s_time) : bool :=
    && valid_time_b (denote_time t)
    && (time_offset (denote_time t) =? timeline t)
    && forallb plain_char (render_time t)
-   && time_shape (render_time t)).
+   && time_shape (render_time t)
+   && text_ok (render_time t)).
 
 Lemma st_sweep_true :
   range_forallb (fun s => range_forallb (fun h => range_forallb (fun m =>
@@ -322,11 +323,12 @@ Section TimeFacts.
     /\ valid_time (denote_time t)
     /\ time_offset (denote_time t) = timeline t
     /\ forallb plain_char (render_time t) = true
-    /\ time_shape (render_time t) = true.
+    /\ time_shape (render_time t) = true
+    /\ text_ok (render_time t) = true.
   Proof.
     pose proof C as H. unfold st_check in H. rewrite W in H. cbn [negb orb] in H.
     repeat (apply andb_true_iff in H as [H ?]).
-    split; [|split; [|split; [|split]]]; try assumption.
+    split; [|split; [|split; [|split; [|split]]]]; try assumption.
     - destruct (parse_time (render_time t)) as [t'| |]; try discriminate.
       apply time_eqb_full_eq in H. congruence.
     - apply valid_time_b_spec. assumption.
@@ -344,6 +346,8 @@ Proof. intros W. apply (st_facts t W). Qed.
 Lemma render_time_plain t : wf_time t = true -> forallb plain_char (render_time t) = true.
 Proof. intros W. apply (st_facts t W). Qed.
 Lemma render_time_shape t : wf_time t = true -> time_shape (render_time t) = true.
+Proof. intros W. apply (st_facts t W). Qed.
+Lemma render_time_text_ok t : wf_time t = true -> text_ok (render_time t) = true.
 Proof. intros W. apply (st_facts t W). Qed.
 
 (* Time.ToString writes a specification spelling (no padding, no 24:00), and that spelling denotes the time *)
